@@ -165,10 +165,18 @@ def gen(tier, rng):
     for _ in range(5000 if tier == "quick" else 50000):
         yield {"kind": "spec", "n": _random_name(rng)}
     for _ in range(3000 if tier == "quick" else 30000):
-        yield _random_mw(rng)
+        c = _random_mw(rng)
+        yield c
+        if c["groups"][0][:1] == ["splitParts"] and rng.random() < 0.3:
+            yield dict(c, noline=True, groups=[["splitParts"]])
+    # results belong to the caller: appending to the (possibly empty) parts of one parsed name changes no other name
+    for a, b in (("Knuth", "Donald E. Knuth"), ("van Beethoven, Ludwig", "Last, Jr, First"), ("A B", "c d"), ("{X}", "Y, Z")):
+        yield {"kind": "alias", "n": a, "m": b}
 
 
 def request(case):
+    if case.get("noline") or case.get("kind") == "alias":
+        return None      # python-only: the check is made on the real code (impl raises when it fails)
     if case.get("kind") == "mw":
         text = "".join(U.value_text(v) for _k, v in case["fields"])
         if not lean_representable(text):
@@ -266,6 +274,16 @@ def _has_top_comma(name):
 
 
 def impl(case):
+    if case.get("noline"):
+        f = _oracle_mw(case)
+        if f:
+            raise AssertionError(f)
+        return "(ok noline)"
+    if case.get("kind") == "alias":
+        f = _alias_check(case)
+        if f:
+            raise AssertionError(f)
+        return "(ok alias)"
     if case.get("kind") == "mw":
         return enc(U.run_groups(U.make_entry(case["fields"]), case["groups"], case.get("inplace", True)))
     if case.get("kind") == "spec":
@@ -286,6 +304,8 @@ def oracle(case):
     from bibtexparser.middlewares.names import parse_single_name_into_parts as parse, InvalidNameError
     if case.get("kind") == "mw":
         return _oracle_mw(case)
+    if case.get("kind") == "alias":
+        return _alias_check(case)
     if case.get("kind") == "wcase":
         return _oracle_wcase(case)
     name = case["n"]
@@ -311,6 +331,29 @@ def oracle(case):
         return "words not preserved: %r vs %r" % (got, secs)
     if secs and secs[0] and not p.last:
         return "last name is empty although the first section has words"
+    return None
+
+
+def _alias_check(case):
+    """the four lists of a parsed name are its own: appending to them (also to the empty ones) shows in no other parsed
+    name - neither one parsed before nor one parsed afterwards"""
+    from bibtexparser.middlewares.names import parse_single_name_into_parts as parse
+    mark = "\u2620appended"
+    first = parse(case["n"])
+    lists = [first.first, first.von, first.last, first.jr]
+    try:
+        for lst in lists:
+            lst.append(mark)
+        again = parse(case["n"])
+        other = parse(case["m"])
+        for what, p in (("the same name parsed again", again), ("another name", other)):
+            for part in (p.first, p.von, p.last, p.jr):
+                if mark in part:
+                    return "a word appended to the parts of one parsed name shows up in %s: %r" % (what, p)
+    finally:
+        for lst in lists:
+            while mark in lst:
+                lst.remove(mark)
     return None
 
 
@@ -350,6 +393,9 @@ def _oracle_mw(case):
     if not all(isinstance(v, list) and all(isinstance(x, str) for x in v) for _k, v in name_vals):
         return None   # ill-typed input: ValueError/TypeError are the documented behaviour
     entry = U.make_entry(case["fields"])
+    if case.get("noline"):
+        # an entry built in code: no start line, no raw text
+        entry = M.Entry(entry.entry_type, entry.key, entry.fields)
     try:
         (blk,) = SplitNameParts(allow_inplace_modification=case.get("inplace", True)).transform(Library([entry])).blocks
     except Exception as e:  # noqa
